@@ -236,7 +236,7 @@ func (h *H) phaseCodec() {
 			if !h.want("codec", ci) {
 				continue
 			}
-			g := &Gen{R: h.rng("codec", ci)}
+			g := &Gen{R: h.rng("codec", ci), rawLimbs: true}
 			v := g.Value(st.t, Cfg(i, false))
 			h.codecCase(st, ci, v)
 		}
@@ -294,8 +294,15 @@ func (h *H) codecCase(st storable, ci int, v reflect.Value) {
 	out := h.ask("dec " + hx(enc))
 	res.Compared(1)
 	if out != "ok "+hx(enc) {
-		res.Mismatch(lib.Mismatch{Sig: "cbor-decode-reencode/" + st.name, Input: hx(enc), Model: clip(out), Impl: "ok " + clip(hx(enc))})
+		res.Mismatch(lib.Mismatch{Sig: "cbor-decode-reencode/" + st.name, Input: clip(hx(enc)), Model: clip(out), Impl: "ok " + clip(hx(enc))})
 	}
+}
+
+// marshalFailed: a generated value of a storable type that the encoder refuses (or panics on)
+// cannot be stored at all.
+func (h *H) marshalFailed(phase string, ci int, typ string, v any, err error) {
+	h.res.Violate(lib.Violation{Sig: "marshal-fails-" + typ, What: fmt.Sprintf("encoder.Marshal(%s) failed: %v", typ, err),
+		Replay: h.spec(phase, ci, map[string]any{"type": typ, "value": describe(v)})})
 }
 
 func clip(s string) string {
@@ -353,7 +360,7 @@ func (h *H) phaseBlob(shard, shards int) {
 		if i%shards != shard || !h.want("blob", i) {
 			continue
 		}
-		g := &Gen{R: h.rng("blob", i)}
+		g := &Gen{R: h.rng("blob", i), rawLimbs: true}
 		txs, rcs := h.genBlockItems(g, i)
 		res.Hit(fmt.Sprintf("blob:txs=%s,rcs=%s", bucket(len(txs)), bucket(len(rcs))))
 		var items []string
@@ -361,7 +368,7 @@ func (h *H) phaseBlob(shard, shards int) {
 		for _, tx := range txs {
 			b, err := marshalAs(tTxIface, reflect.ValueOf(tx))
 			if err != nil {
-				res.Note("marshal tx: %v", err)
+				h.marshalFailed("blob", i, "Transaction", tx, err)
 			}
 			items = append(items, hx(b))
 			itemBytes = append(itemBytes, b)
@@ -369,7 +376,7 @@ func (h *H) phaseBlob(shard, shards int) {
 		for _, rc := range rcs {
 			b, err := encoder.Marshal(rc)
 			if err != nil {
-				res.Note("marshal rc: %v", err)
+				h.marshalFailed("blob", i, "TransactionReceipt", rc, err)
 			}
 			items = append(items, hx(b))
 			itemBytes = append(itemBytes, b)
